@@ -1,10 +1,180 @@
-(* Props/C03.v -- property C03 (placeholder while the pipeline is brought up). *)
+(* Props/C03.v -- property C03: failed realizations and perturbations are excluded exactly as if absent.
+   Only statements; each is closed by a lemma of Proofs/Ensemble.v (the last one: Proofs/EnsembleFilters.v).  All
+   statements but the last are about the executable definitions of Model/Ensemble.v that Check/Chk_C03.v evaluates
+   against the real EnsembleEvaluator; the last is about the filter models of C04/C05 (Model/Filters.v).
+
+   Vocabulary (Model/Ensemble.v):
+     rows : list (objectives, constraints)   evaluator output per realization (None = NaN); prows: per realization and perturbation
+     propagate_nan                           _propagate_nan_values;  failed_fn / failed_grad: _get_failed_realizations
+     nan_free row                            no NaN in the row;  keep_of failed = negation of the flags
+     gather (keep_of failed) l               l with the entries of the failed realizations deleted
+     reduce_pX pX pf / reduce_pf pf          the perturbations of one realization with the failed ones deleted
+     estimate / estimate_all / gradient_of   _calculate_estimated_functions / _calculate_gradient (zero failed weights,
+                                             renormalise, estimator); solve = _invert_linear_equations (any function)
+     fres_eq / gres_eq / veq                 equality of results up to == on Q *)
 From Coq Require Import String QArith List Bool Arith ZArith.
-From Ropt Require Import Base.Num Base.ListX Model.Ensemble Proofs.Ensemble.
+From Ropt Require Import Base.Num Base.ListX Gen.Generated Model.Ensemble Proofs.Ensemble Proofs.EnsembleFilters.
 Import ListNotations.
 Open Scope Q_scope.
 
-Theorem C03_placeholder : forall ow objs, weighted_objective ow objs = rdot ow objs.
-Proof. exact weighted_objective_dot. Qed.
+(* a realization is flagged as failed for a function evaluation iff any of its objective or constraint values is NaN
+   (at least one objective is configured) *)
+Theorem C03_failed_iff_any_nan : forall rows r o c, nth_error rows r = Some (o, c) -> o <> [] ->
+  (nth r (failed_fn (propagate_nan rows)) false = true <-> In None o \/ In None c).
+Proof. exact failed_iff_any_nan. Qed.
 
-Print Assumptions C03_placeholder.
+(* a perturbation succeeds iff none of its values is NaN *)
+Theorem C03_perturbation_ok_iff : forall o c, o <> [] ->
+  (perturbation_ok (propagate_row (o, c)) = true <-> ~ In None o /\ ~ In None c).
+Proof. intros o c Ho. rewrite (perturbation_ok_propagate o c Ho). apply nan_free_iff. Qed.
+
+(* for a gradient evaluation a realization is flagged iff its unperturbed row has a NaN or fewer than
+   perturbation_min_success of its perturbations are NaN-free *)
+Theorem C03_grad_failed_iff : forall pmin rows prows r o c, length prows = length rows ->
+  nth_error rows r = Some (o, c) -> o <> [] ->
+  Forall (fun oc : list oQ * list oQ => fst oc <> []) (nth r prows []) ->
+  (nth r (failed_grad pmin (propagate_nan rows) (map propagate_nan prows)) false = true <->
+   (In None o \/ In None c) \/ (count_true (map nan_free (nth r prows [])) < pmin)%nat).
+Proof. exact grad_failed_raw. Qed.
+
+(* both thresholds are clamped to the ensemble size: never above it, the maximum when unset or too large *)
+Theorem C03_thresholds_clamped : forall m n,
+  (clamp_threshold m n <= n)%nat /\
+  (m = None -> clamp_threshold m n = n) /\
+  (forall k, m = Some k -> (k <= n)%nat -> clamp_threshold m n = k) /\
+  (forall k, m = Some k -> (n < k)%nat -> clamp_threshold m n = n).
+Proof. exact clamp_threshold_spec. Qed.
+
+(* the gate: open iff the number of non-failed realizations reaches realization_min_success ... *)
+Theorem C03_gate : forall rmin failed,
+  (gate rmin failed = true <-> (rmin <= count_ok failed)%nat) /\ count_ok failed = length (filter negb failed).
+Proof. intros rmin failed. split; [apply gate_iff | apply count_ok_spec]. Qed.
+
+(* ... functions are reported iff the gate is open, otherwise nothing is reported for that evaluation; what is
+   reported is computed from the NaN-propagated rows, their flags and the weights in force only *)
+Theorem C03_functions_reported_iff : forall c raw fouts r, one_set c raw fouts = Done r ->
+  r_rows r = propagate_nan raw /\ r_failed r = failed_fn (propagate_nan raw) /\
+  (r_functions r = None <-> (count_ok (r_failed r) < cfg_rmin c)%nat) /\
+  (forall f, r_functions r = Some f -> f = compute_functions c (r_ow r) (r_cw r) (r_rows r) (r_failed r)).
+Proof. exact one_set_gate. Qed.
+
+(* a missing value stops the optimization with TOO_FEW_REALIZATIONS: the optimizer step ends with that code iff the
+   calculation aborted, some result of the evaluation lacks its functions/gradients, or (realization_min_success = 0,
+   optimizer without allow_nan) all realizations of a result failed; the evaluator step iff aborted or a result
+   lacks its functions.  The two codes are the ones regenerated from OptimizerExitCode and differ. *)
+Theorem C03_too_few_exit : forall aborted rmin allow_nan results missing,
+  (optimizer_step_exit aborted rmin allow_nan results = exit_code_of "TOO_FEW_REALIZATIONS" <->
+   aborted = true \/
+   exists r, In r results /\
+             (fst r = true \/ (rmin = 0%nat /\ allow_nan = false /\ forallb (fun b : bool => b) (snd r) = true))) /\
+  (optimizer_step_exit aborted rmin allow_nan results = exit_code_of "TOO_FEW_REALIZATIONS" \/
+   optimizer_step_exit aborted rmin allow_nan results = exit_code_of "OPTIMIZER_STEP_FINISHED") /\
+  (evaluator_step_exit aborted missing = exit_code_of "TOO_FEW_REALIZATIONS" <-> aborted = true \/ In true missing) /\
+  exit_code_of "TOO_FEW_REALIZATIONS" <> exit_code_of "OPTIMIZER_STEP_FINISHED" /\
+  exit_code_of "TOO_FEW_REALIZATIONS" <> exit_code_of "EVALUATION_STEP_FINISHED".
+Proof.
+  intros aborted rmin allow_nan results missing.
+  split; [rewrite optimizer_step_exit_iff, too_few_after_evaluation_iff; reflexivity|].
+  split; [apply optimizer_step_exit_cases|]. split; [apply evaluator_step_exit_iff | apply exit_codes_distinct].
+Qed.
+
+(* "as if absent", one function: for every estimator, column, weight row and failure mask, the result on the full
+   ensemble (failed weights zeroed, rest renormalised) is the result on the ensemble from which the failed
+   realizations have been deleted -- the value when one is defined (mean and variance), and likewise the
+   too-few abort and the undefined 0/0 case *)
+Theorem C03_as_if_absent_estimate : forall k f wrow failed, length wrow = length failed ->
+  fres_eq (estimate k f wrow failed)
+          (estimate k (gather (keep_of failed) f) (gather (keep_of failed) wrow) (repeat false (count_ok failed))).
+Proof. exact estimate_removal. Qed.
+
+(* "as if absent", all functions of an evaluation (sel = fst: objectives, sel = snd: constraints): the reduced
+   ensemble keeps the configured weights and the weight rows in force of the survivors; its own failure flags
+   (recomputed by the model) are all false *)
+Theorem C03_as_if_absent_functions : forall (sel : list oQ * list oQ -> list oQ) ests emap cfgw wmat rows,
+  (forall j, (j < length emap)%nat -> length (in_force cfgw wmat j) = length rows) ->
+  Forall2 fres_eq
+    (estimate_all ests emap cfgw wmat (map sel rows) (failed_fn rows))
+    (estimate_all ests emap (gather (keep_of (failed_fn rows)) cfgw)
+                  (option_map (map (gather (keep_of (failed_fn rows)))) wmat)
+                  (map sel (gather (keep_of (failed_fn rows)) rows))
+                  (failed_fn (gather (keep_of (failed_fn rows)) rows))).
+Proof. exact as_if_absent_functions. Qed.
+
+(* failed perturbations: the least-squares system of a realization is the system of the same realization with its
+   failed perturbations deleted (NaN rows are dropped, never kept as zeros) *)
+Theorem C03_perturbations_as_if_absent : forall x fx pX pf,
+  realization_system x fx (reduce_pX pX pf) (reduce_pf pf) = realization_system x fx pX pf.
+Proof. exact realization_system_reduced. Qed.
+
+(* "as if absent", gradients: for every least-squares solver returning nv entries, both estimators and every failure
+   mask, the combined gradient of the full ensemble equals that of the ensemble with the failed realizations and
+   the failed perturbations deleted and the weights renormalised *)
+Theorem C03_as_if_absent_gradients : forall (solve : list vec -> list Q -> vec) nv,
+  (forall A b, length (solve A b) = nv) ->
+  forall k x fs pXs pfs wrow failed, length fs = length failed -> length wrow = length failed ->
+  let keep := keep_of failed in
+  gres_eq (gradient_of solve nv k x fs pXs pfs wrow failed)
+          (gradient_of solve nv k x (gather keep fs)
+                       (map2 reduce_pX (gather keep pXs) (gather keep pfs)) (map reduce_pf (gather keep pfs))
+                       (gather keep wrow) (repeat false (count_ok failed))).
+Proof. exact gradient_removal. Qed.
+
+(* realization filters are part of the "weights in force": on the filter models of C04/C05 (Model/Filters.v, not
+   imported here, hence the qualified names) the CVaR weights and the sort-window weights computed with a failure mask
+   are, on the survivors, the weights computed on the ensemble with the failed realizations deleted, and exact zeros
+   on the failed ones.  Model.Filters.count_ok failed = length (filter negb failed) is the count_ok of C03_gate. *)
+Theorem C03_filters_commute_with_removal : forall values failed, length failed = length values ->
+  (forall p, 0 < p -> p <= 1 ->
+     veq (gather (keep_of failed) (Model.Filters.cvar_weights p values failed))
+         (Model.Filters.cvar_weights p (gather (keep_of failed) values) (repeat false (Model.Filters.count_ok failed))) /\
+     (forall r, nth r failed true = true -> nth r (Model.Filters.cvar_weights p values failed) 0 = 0)) /\
+  (forall cfgw first last, length cfgw = length failed ->
+     gather (keep_of failed) (Model.Filters.sort_and_select values cfgw failed first last) =
+     Model.Filters.sort_and_select (gather (keep_of failed) values) (gather (keep_of failed) cfgw)
+                                   (repeat false (Model.Filters.count_ok failed)) first last /\
+     (forall r, nth r failed true = true -> nth r (Model.Filters.sort_and_select values cfgw failed first last) 0 = 0)).
+Proof. exact filters_commute_with_removal. Qed.
+
+(* non-vacuity: three realizations, two perturbations each, one variable; realization 1 fails (NaN in the constraint),
+   realization 2 loses one perturbation; solver = difference quotient of the first row *)
+Example C03_example :
+  let rows := [([Some (Q_ 1 1)], [Some (Q_ 0 1)]); ([Some (Q_ 2 1)], [None]); ([Some (Q_ 5 1)], [Some (Q_ 1 1)])] in
+  let prows := [[([Some (Q_ 2 1)], [Some 0]); ([Some (Q_ 3 1)], [Some 0])];
+                [([Some (Q_ 2 1)], [Some 0]); ([Some (Q_ 3 1)], [Some 0])];
+                [([None], [Some 0]); ([Some (Q_ 7 1)], [Some 0])]] in
+  let solve := fun (A : list vec) (b : list Q) => [nth 0 b 0 / nth 0 (nth 0 A []) 1] in
+  let wrow := [Q_ 1 2; Q_ 1 4; Q_ 1 4] in
+  let failed := failed_fn (propagate_nan rows) in
+  let fs := column 0 (map fst (propagate_nan rows)) in
+  let pXs := [[[Q_ 1 1]; [Q_ 2 1]]; [[Q_ 1 1]; [Q_ 2 1]]; [[Q_ 1 1]; [Q_ 2 1]]] in
+  let pfs := map (fun pr => column 0 (map fst (propagate_nan pr))) prows in
+  failed = [false; true; false] /\
+  failed_grad 2 (propagate_nan rows) (map propagate_nan prows) = [false; true; true] /\
+  failed_grad 1 (propagate_nan rows) (map propagate_nan prows) = [false; true; false] /\
+  gate 2 failed = true /\ gate 3 failed = false /\
+  (forall A b, length (solve A b) = 1%nat) /\ length fs = length failed /\ length wrow = length failed /\
+  fres_eq (estimate Mean fs wrow failed) (FOk (Q_ 7 3)) /\
+  gres_eq (gradient_of solve 1 Mean [0] fs pXs pfs wrow failed) (GMean [Q_ 1 1]) /\
+  gres_eq (gradient_of solve 1 Mean [0] (gather (keep_of failed) fs)
+                       (map2 reduce_pX (gather (keep_of failed) pXs) (gather (keep_of failed) pfs))
+                       (map reduce_pf (gather (keep_of failed) pfs))
+                       (gather (keep_of failed) wrow) (repeat false (count_ok failed))) (GMean [Q_ 1 1]).
+Proof.
+  cbv zeta. split; [vm_compute; reflexivity|]. split; [vm_compute; reflexivity|]. split; [vm_compute; reflexivity|].
+  split; [vm_compute; reflexivity|]. split; [vm_compute; reflexivity|]. split; [intros A b; reflexivity|].
+  split; [vm_compute; reflexivity|]. split; [vm_compute; reflexivity|]. split; [vm_compute; reflexivity|].
+  split; vm_compute; repeat constructor.
+Qed.
+
+Print Assumptions C03_failed_iff_any_nan.
+Print Assumptions C03_perturbation_ok_iff.
+Print Assumptions C03_grad_failed_iff.
+Print Assumptions C03_thresholds_clamped.
+Print Assumptions C03_gate.
+Print Assumptions C03_functions_reported_iff.
+Print Assumptions C03_too_few_exit.
+Print Assumptions C03_as_if_absent_estimate.
+Print Assumptions C03_as_if_absent_functions.
+Print Assumptions C03_perturbations_as_if_absent.
+Print Assumptions C03_as_if_absent_gradients.
+Print Assumptions C03_filters_commute_with_removal.
